@@ -98,7 +98,8 @@ def run(name, checks=None, tier="quick"):
                 if m and os.path.exists(m.group(1)):
                     rj = json.load(open(m.group(1)))
                     rp = {k: (str(v)[:300]) for k, v in rj.items() if k in ("kind", "case", "impl", "model", "oracle", "broken")}
-            meta.setdefault("caught_by", {})[c] = {"tier": tier, "caught": caught, "violation": vio[:1], "replay": rp, "wall_s": round(time.time() - t0, 1)}
+            meta.setdefault("caught_by", {})[c] = {"tier": tier, "caught": caught, "violation": vio[:1], "replay": rp, "wall_s": round(time.time() - t0, 1),
+                                                    "with_failing_input": bool(vio) and not vio[0].endswith("no-failing-input-found")}
             print(name, c, "CAUGHT" if caught else "MISSED", vio[:1], rp if caught else o[-300:])
     finally:
         sh(["git", "-C", "/repo", "checkout", "--", "."])
@@ -117,4 +118,5 @@ if __name__ == "__main__":
     elif cmd == "runall":
         for n in sorted(os.listdir(SEEDED)):
             if os.path.exists(os.path.join(SEEDED, n, "meta.json")):
-                run(n)
+                prev = json.load(open(os.path.join(SEEDED, n, "meta.json"))).get("caught_by", {})
+                run(n, sorted(set([n.split("-")[0]] + list(prev))))
